@@ -202,7 +202,10 @@ func trialNum(name string) int {
 func valStr(v int64) string { return strconv.FormatFloat(float64(v)/8, 'f', -1, 64) }
 
 func mkExperiment(c Cfg) *experimentsv1beta1.Experiment {
-	e := &experimentsv1beta1.Experiment{ObjectMeta: metav1.ObjectMeta{Name: ExpName, Namespace: NS}}
+	// the experiment carries labels of its own, and every third assignment of the fake algorithm service carries a label with
+	// the same key and another value (services such as PBT label their proposals): which trials belong to the experiment must
+	// not depend on either
+	e := &experimentsv1beta1.Experiment{ObjectMeta: metav1.ObjectMeta{Name: ExpName, Namespace: NS, Labels: map[string]string{"team": "ml", "stage": "dev"}}}
 	if c.Max != nil {
 		e.Spec.MaxTrialCount = i32(*c.Max)
 	}
@@ -551,8 +554,12 @@ func (f *fakeAlgo) GetSuggestions(cx context.Context, in *api_pb.GetSuggestionsR
 	}
 	rep := &api_pb.GetSuggestionsReply{}
 	for _, n := range r.Names {
-		rep.ParameterAssignments = append(rep.ParameterAssignments, &api_pb.GetSuggestionsReply_ParameterAssignments{
-			TrialName: TrialName(n), Assignments: []*api_pb.ParameterAssignment{{Name: "lr", Value: "0.5"}}})
+		pa := &api_pb.GetSuggestionsReply_ParameterAssignments{
+			TrialName: TrialName(n), Assignments: []*api_pb.ParameterAssignment{{Name: "lr", Value: "0.5"}}}
+		if n%3 == 0 {
+			pa.Labels = map[string]string{"team": "other", "generation": strconv.Itoa(n)}
+		}
+		rep.ParameterAssignments = append(rep.ParameterAssignments, pa)
 	}
 	if r.Settings != nil {
 		rep.Algorithm = &api_pb.AlgorithmSpec{AlgorithmSettings: []*api_pb.AlgorithmSetting{{Name: "v", Value: strconv.Itoa(*r.Settings)}}}
